@@ -78,6 +78,7 @@ func init() {
 		"(*log.Logger).Print":   noop,
 		"(*log.Logger).Fatalf":  noop,
 		"log.Printf":            noop,
+		"log.New":               func(p *Path, fr *frame, a []Value) Value { return nilPtr },
 		"log.Println":           noop,
 		"time.Sleep":            noop,
 		"runtime.Gosched":       noop,
